@@ -17,6 +17,7 @@ func RunAll(w *load.World, c *core.Collector) {
 	ItemFlags(w, c)
 	Pair(w, c)
 	DocFlow(w, c)
+	Degree(w, c)
 	Enum(w, c)
 	Limits(w, c)
 	Tagged(w, c)
@@ -33,6 +34,7 @@ func RunAll(w *load.World, c *core.Collector) {
 	HandBuilt(w, c)
 	Tenant(w, c)
 	OpTable(w, c)
+	Scan(w, c)
 	TypeTab(w, c)
 	Sortable(w, c)
 	Layout(w, c)
